@@ -78,8 +78,12 @@ def run(ctx):
         plans = [['g0', 'S2.m', 'S3.m'], ['g1', 'S3.m', 'e0.res', 'e1.arg'], ['e0.arg', 'e1.arg', 'e1.res', 'e0.res'], ['e0.arg', 'e0.arg2', 'e1.arg', 'e1.arg2', 'g0'], ['g2', 'S1.m', 'S2.m', 'e1.arg'],
                  ['g0', 'g1', 'S1.m'], ['g0', 'S1.m', 'S2.m', 'S3.m'], [('g0', H['S3']), 'g2', 'S3.m', 'S3.m2'], [('g1', H['S3']), 'g0', 'S3.m', 'S3.m2', 'S2.m']]
     seen = {}
-    opts = dict(derive_encase_host_shareable=True)
-    for plan in plans:
+    opts_encase = dict(derive_encase_host_shareable=True)
+    # which structs are emitted must not depend on the derive switches: one more pass with the bytemuck switches instead of encase
+    # (runtime-sized arrays excluded there: the generator refuses them with bytemuck, as documented)
+    opts_bytemuck = dict(derive_bytemuck_host_shareable=True, derive_bytemuck_vertex=True, derive_serde=True)
+    plans = [(p_, opts_encase) for p_ in plans] + [(['g0', 'S1.m'], opts_bytemuck)]
+    for plan, opts in plans:
         module = c.module(S.dump(SRC))
         types = c.get(module, 'types').fields[0].items
         gvs = c.get(module, 'global_variables').fields[0].items
@@ -111,6 +115,8 @@ def run(ctx):
             g_ = terms[f'g{i}']
             has_rt_ = z3.Or(g_ == H['R0'], g_ == H['R1'], z3.And(g_ == H['S1'], rt1), z3.And(z3.Or(g_ == H['S2'], g_ == H['A2']), rt2), z3.And(g_ == H['S3'], rt3))
             assume.append(z3.Implies(has_rt_, spaces[f'g{i}'] == AS['Storage']))
+        if opts is opts_bytemuck:
+            assume += [terms[k_] != H[r_] for k_ in terms for r_ in ('R0', 'R1')]
         space_of = lambda m_: {k: next(n_ for n_ in SPACES if AS[n_] == model_value(m_, v)) for k, v in spaces.items()}
         for i in (1, 2, 3):
             ms = c.get(types[H[f'S{i}']], 'inner').fields[0].items
@@ -148,8 +154,9 @@ def run(ctx):
                 if emitted:
                     conds.append((f'{sname}: emitted once', z3.BoolVal('duplicates' not in sts[sname])))
                     # the same closure decides the host-shareable role (encase is on in this harness): derive present iff reachable from a variable
-                    conds.append((f'{sname}: classified host-shareable iff reachable from a module-scope variable',
-                                  reach_of[sname] == z3.BoolVal('encase::ShaderType' in sts[sname]['derives'])))
+                    if opts is opts_encase:
+                        conds.append((f'{sname}: classified host-shareable iff reachable from a module-scope variable',
+                                      reach_of[sname] == z3.BoolVal('encase::ShaderType' in sts[sname]['derives'])))
             extra = [n for n in order if n not in STRUCTS]
             conds.append(('no other struct item', z3.BoolVal(not extra)))
             m = ctx.check(pc, z3.Or([z3.Not(c_) for _, c_ in conds]))
@@ -183,7 +190,7 @@ def run(ctx):
                 raise Inconclusive(f'translator disagrees with the implementation: {real} vs {mine} on\n{src2}')
             ctx.replayed_ok += 1
             ctx.sample({'usage': {k: v for k, v in vals.items() if k in plan}, 'emitted': real})
-    ctx.differential(SRC, opts)
+    ctx.differential(SRC, opts_encase)
     ctx.extra['violations_by_rule'] = seen
 
 
